@@ -312,6 +312,20 @@ static uint32_t P_poll(void *fds, uint64_t n, uint32_t ms) { (void)fds; (void)n;
 static uint32_t P_sched_yield(void) { return 0; }
 static uint32_t P_usleep(uint32_t us) { (void)us; return 0; }
 static uint64_t P_pthread_self(void) { return (uint64_t)rt_cur + 1; }
+/* urcu-bp: anonymous private mappings are zero-filled fresh memory; growing a mapping in place and thread-exit destructors are not modelled */
+static void *P_mmap(void *addr, uint64_t len, uint32_t prot, uint32_t flags, uint32_t fd, uint64_t off) {
+  (void)prot; (void)fd; (void)off;
+  RT_ASSERT(addr == 0 && (flags & 0x20), "mmap: only anonymous mappings at a kernel-chosen address are modelled");
+  void *p = RT_ALLOC(len, 1);
+#ifndef IRSEQ_NATIVE
+  __CPROVER_assume(p != 0);
+#endif
+  return p; }
+static void *P_mremap(void *a, uint64_t o, uint64_t n, uint32_t fl) { (void)a; (void)o; (void)n; (void)fl; RT_ASSERT(0, "mremap (registry arena growth) not modelled"); return 0; }
+static uint32_t P_munmap(void *a, uint64_t n) { (void)a; (void)n; return 0; }
+static uint32_t P_pthread_key_create(void *key, void *dtor) { (void)dtor; *(uint32_t *)key = 1; return 0; }
+static uint32_t P_pthread_key_delete(uint32_t key) { (void)key; return 0; }
+static uint32_t P_pthread_setspecific(uint32_t key, void *v) { (void)key; (void)v; return 0; }
 /* the library only ever blocks everything (sigfillset + SIG_BLOCK) and restores the old mask (SIG_SETMASK) */
 static uint32_t P_pthread_sigmask(uint32_t how, void *set, void *old) {
   if (old) *(uint8_t *)old = rt_sigblocked[rt_cur];
